@@ -23,6 +23,8 @@ class Engine(object):
         self.seed = seed
         self.ext = []              # extension objects (language layer, bdd layer)
         self.global_axioms = [hp.pick_axiom(), hp.empty_rel_axiom()] + hp.isend_axioms()
+        self.baseline_names = set()
+        self.escalations_left = 3
 
     def register(self, contract, relpath):
         self.contracts[contract.qualname] = contract
@@ -427,7 +429,8 @@ class Engine(object):
         if ty == 'iterPair':
             return SV('coll', None, Coll('pair', hp.empty_rel(), True))
         if ty == 'anydict':
-            return SV('anydict', None, None)
+            return SV('anydict', None, {'isdict': z3.BoolVal(True), 'dom': hp.empty_set(),
+                                        'val': z3.K(H, hp.empty_set()), 'ok': z3.K(H, z3.BoolVal(True))})
         return ex.fresh_of(ty, path.heap)
 
     def bind_args(self, ex, k, args, kwargs, path, e):
@@ -708,6 +711,27 @@ class Engine(object):
                 s2.add(z3.Not(g))
                 if s2.check() == z3.unsat:
                     o.status, o.backend = 'discharged', 'z3'
+                    o.seconds = time.time() - t0
+                    return o
+        # escalation (DESIGN.md section 1): before an obligation that is known to discharge on the
+        # unchanged tree is reported as failing, retry with a 4x budget in both configurations;
+        # budgeted per worker so that a broken body with many failing obligations stays affordable
+        if getattr(self, 'escalations_left', 0) > 0 and o.name in self.baseline_names:
+            self.escalations_left -= 1
+            big = 4 * (timeout_ms or self.timeout_ms)
+            for cfg in ({'auto_config': False, 'mbqi': False}, {}):
+                s4 = z3.Solver()
+                s4.set('timeout', big)
+                s4.set('random_seed', self.seed + 7)
+                for kk, vv in cfg.items():
+                    s4.set(kk, vv)
+                for a in o.assumptions:
+                    s4.add(a)
+                s4.add(z3.Not(o.goal))
+                r4 = s4.check()
+                if r4 == z3.unsat:
+                    o.status, o.backend = 'discharged', 'z3'
+                    o.detail = 'after escalation'
                     o.seconds = time.time() - t0
                     return o
         r2 = run_cvc5(s, (timeout_ms or self.timeout_ms) // 1000 + 1)
